@@ -24,6 +24,10 @@ def digests_inproc(prop_id, n, workers, seed):
                                   budget_s=600, want_digests=True, quiet=True)
     if code == 2 or d is None:
         raise runner.HarnessError("digest collection failed for %s" % prop_id)
+    if code == 1:
+        # a run stopped at a violation: the digests after it are missing and the comparison means little
+        print("NOTE %s: a violation was reported while collecting digests (seed %s, %d runs, %d workers)" % (
+            prop_id, seed, n, workers), flush=True)
     return dict(d)
 
 
@@ -43,20 +47,23 @@ def digests_subprocess(prop_id, n, workers, seed, pyhash):
 def determinism(props, n, seed, worker_counts=(1, 4, 16), pyhash=12345):
     bad = 0
     for pid in props:
+        agree = True
         ref = digests_inproc(pid, n, worker_counts[0], seed)
         for wc in worker_counts[1:]:
             other = digests_inproc(pid, n, wc, seed)
             diff = [i for i in ref if other.get(i) != ref[i]]
             if diff:
                 bad += 1
+                agree = False
                 print("NONDETERMINISM %s: workers=%d vs %d differ at runs %s" % (pid, worker_counts[0], wc, diff[:5]))
         sub = digests_subprocess(pid, n, 3, seed, pyhash)
         diff = [i for i in ref if sub.get(i) != ref[i]]
         if diff:
             bad += 1
+            agree = False
             print("NONDETERMINISM %s: fresh interpreter with PYTHONHASHSEED=%s differs at runs %s" % (
                 pid, pyhash, diff[:5]))
-        print("determinism %s: %d runs x %d configurations agree=%s" % (pid, n, len(worker_counts) + 1, not diff),
+        print("determinism %s: %d runs x %d configurations agree=%s" % (pid, n, len(worker_counts) + 1, agree),
               flush=True)
     return bad
 
